@@ -354,7 +354,7 @@ class Library:
             return TypeTag("dtype")
         if attr == "ndim":
             return 1
-        if attr == "block_until_ready":
+        if attr in ("block_until_ready", "tolist", "copy"):
             return lambda ex_: o
         raise Unsupported(f"array attribute {attr}")
 
